@@ -192,62 +192,209 @@ class Fn:
             for s in self.succ[b]:
                 yield (b, s)
 
-    def reachable(self, start=0, cut_blocks=(), cut_edges=()):
-        """Blocks reachable from `start` along normal (non-unwind) edges, never entering a block in
-        cut_blocks and never taking an edge in cut_edges."""
-        cut_blocks = set(cut_blocks)
-        cut_edges = set(cut_edges)
-        if start in cut_blocks:
-            return set()
+    # ---- feasibility: values with several definitions tested by a later switch ------------------
+    @property
+    def merges(self):
+        """Infeasible-path pruning table.  For a local X with several whole definitions (a
+        `let r = match .. {..}` merge, the return place of an inlined helper) and a later switch
+        whose discriminant is a pure function of X (`match r`, `r?`, `if r.is_err()`), the arm taken
+        is determined by which definition of X executed last.  Returns a list of
+        (X, {def_block: def_index}, {switch_block: {def_index: target}}); reachability tracks the
+        last definition per X and follows only the matching arm.  A switch is entered in the table
+        only if no definition of X can execute between the point where X is read and the switch."""
+        if getattr(self, "_merges", None) is not None:
+            return self._merges
+        self._merges = []
+        try:
+            from .expr import expr_of_operand, evaluate, switch_target, UNK
+        except ImportError:
+            return self._merges
+        table = {}
+        for sb in range(self.n):
+            t = self.blocks[sb]["t"]
+            if t["k"] != "switch":
+                continue
+            e = expr_of_operand(self, t["x"])
+            phi = {"seen": {}, "choice": {}}
+            evaluate(e, {"__phi__": phi})
+            keys = [k for k in phi["seen"] if k[0] == self.key]
+            if len(phi["seen"]) != 1 or len(keys) != 1:
+                continue
+            x = keys[0][1]
+            ds = def_sites(self, x)
+            arms = {}
+            for i in range(len(ds)):
+                phi2 = {"seen": {}, "choice": {keys[0]: i}}
+                v = evaluate(e, {"__phi__": phi2})
+                if len(phi2["seen"]) != 1:
+                    arms = None
+                    break
+                tgt = switch_target(t, v) if v is not UNK else None
+                if tgt is not None:
+                    arms[i] = tgt
+            if not arms:
+                continue
+            # X must not be redefined between the read of X and the switch
+            rb = self._read_block(t["x"], x)
+            if rb is None:
+                continue
+            defblocks = {d[0] for d in ds}
+            between = self._plain_reach_after(rb, cut={rb}) if rb != sb else set()
+            if any(d in between and sb in self._plain_reach(d, cut={rb}) for d in defblocks):
+                continue
+            table.setdefault(x, ({d[0]: i for i, d in enumerate(ds)}, {}))[1][sb] = arms
+        self._merges = [(x, dm, sw) for x, (dm, sw) in sorted(table.items())]
+        return self._merges
+
+    def _read_block(self, operand, x, depth=0):
+        """block in which the value chain feeding `operand` reads local x"""
+        if operand.get("k") not in ("copy", "move") or depth > 8:
+            return None
+        l = operand["l"]
+        if l == x:
+            return None if depth == 0 else -1
+        ds = def_sites(self, l)
+        if len(ds) != 1:
+            return None
+        b, kind, payload = ds[0]
+        ops = []
+        if kind == "call":
+            ops = list(payload.args)
+        else:
+            rv = payload["rv"]
+            if rv["k"] in ("ref", "rawptr", "discr"):
+                ops = [dict(rv["place"], k="copy")]
+            else:
+                ops = rvalue_operands(rv)
+        for o in ops:
+            if o.get("k") in ("copy", "move") and o["l"] == x:
+                return b
+        for o in ops:
+            r = self._read_block(o, x, depth + 1)
+            if r is not None and r != -1:
+                return r
+        return None
+
+    def _plain_reach(self, start, cut=()):
         seen = {start}
         q = deque([start])
         while q:
             b = q.popleft()
-            for s in self.succ[b]:
-                if s in seen or s in cut_blocks or (b, s) in cut_edges:
-                    continue
-                seen.add(s)
-                q.append(s)
+            for s_ in self.succ[b]:
+                if s_ not in seen and s_ not in cut:
+                    seen.add(s_)
+                    q.append(s_)
         return seen
+
+    def _plain_reach_after(self, b, cut=()):
+        out = set()
+        for s_ in self.succ[b]:
+            if s_ not in cut:
+                out |= self._plain_reach(s_, cut)
+        return out
+
+    def _step(self, b, st):
+        """(state after leaving b, feasible successors of b in that state)"""
+        ms = self.merges
+        if not ms:
+            return st, self.succ[b]
+        st2 = st
+        for i, (x, dm, sw) in enumerate(ms):
+            if b in dm:
+                st2 = st2[:i] + (dm[b],) + st2[i + 1:]
+        succ = self.succ[b]
+        for i, (x, dm, sw) in enumerate(ms):
+            if b in sw and st2[i] is not None and st2[i] in sw[b]:
+                succ = [s_ for s_ in succ if s_ == sw[b][st2[i]]]
+        return st2, succ
+
+    def reachable(self, start=0, cut_blocks=(), cut_edges=(), _state=None):
+        """Blocks reachable from `start` along normal (non-unwind) feasible edges (see `merges`),
+        never entering a block in cut_blocks and never taking an edge in cut_edges."""
+        cut_blocks = set(cut_blocks)
+        cut_edges = set(cut_edges)
+        if start in cut_blocks:
+            return set()
+        ms = self.merges
+        if not ms:
+            seen = {start}
+            q = deque([start])
+            while q:
+                b = q.popleft()
+                for s in self.succ[b]:
+                    if s in seen or s in cut_blocks or (b, s) in cut_edges:
+                        continue
+                    seen.add(s)
+                    q.append(s)
+            return seen
+        st0 = _state if _state is not None else (None,) * len(ms)
+        seen = {(start, st0)}
+        q = deque([(start, st0)])
+        while q:
+            b, st = q.popleft()
+            st2, succ = self._step(b, st)
+            for s in succ:
+                if s in cut_blocks or (b, s) in cut_edges or (s, st2) in seen:
+                    continue
+                seen.add((s, st2))
+                q.append((s, st2))
+        return {b for b, _ in seen}
 
     def reachable_from_after(self, b, cut_blocks=(), cut_edges=()):
         """Blocks reachable from the *end* of block b (b itself only if on a cycle)."""
         out = set()
         cut_edges = set(cut_edges)
-        for s in self.succ[b]:
+        st2, succ = self._step(b, (None,) * len(self.merges))
+        for s in succ:
             if (b, s) in cut_edges:
                 continue
-            out |= self.reachable(s, cut_blocks, cut_edges)
+            out |= self.reachable(s, cut_blocks, cut_edges, _state=st2 if self.merges else None)
         return out
 
     def path_between(self, src, dst, cut_blocks=(), cut_edges=()):
         cut_blocks = set(cut_blocks)
         cut_edges = set(cut_edges)
-        prev = {src: None}
-        q = deque([src])
+        st0 = (None,) * len(self.merges)
+        prev = {(src, st0): None}
+        q = deque([(src, st0)])
+        end = None
         while q:
-            b = q.popleft()
+            b, st = q.popleft()
             if b == dst:
+                end = (b, st)
                 break
-            for s in self.succ[b]:
-                if s in prev or s in cut_blocks or (b, s) in cut_edges:
+            st2, succ = self._step(b, st)
+            for s in succ:
+                if (s, st2) in prev or s in cut_blocks or (b, s) in cut_edges:
                     continue
-                prev[s] = b
-                q.append(s)
-        if dst not in prev:
+                prev[(s, st2)] = (b, st)
+                q.append((s, st2))
+        if end is None:
             return None
         out = []
-        b = dst
-        while b is not None:
-            out.append(b)
-            b = prev[b]
+        cur = end
+        while cur is not None:
+            out.append(cur[0])
+            cur = prev[cur]
         return out[::-1]
 
     @property
     def dom(self):
-        """dom[b] = set of blocks dominating b (normal edges only)."""
+        """dom[b] = set of blocks dominating b (normal, feasible edges only)."""
         if self._dom is None:
             reach = self.reachable(0)
+            if self.merges:
+                # with infeasible-path pruning: d dominates b iff b is unreachable once d is removed
+                dom = {b: {b, 0} for b in reach}
+                for d in reach:
+                    if d == 0:
+                        continue
+                    left = self.reachable(0, cut_blocks=[d])
+                    for b in reach:
+                        if b not in left:
+                            dom[b].add(d)
+                self._dom = dom
+                return self._dom
             allb = set(reach)
             dom = {b: set(allb) for b in reach}
             dom[0] = {0}
